@@ -476,6 +476,7 @@ package server
 //@   requires ds.fullSyncStarted ==> ds.fullSyncSeen != nil
 //@   ensures [C04:ack-implies-committed] result == nil && len(entities) > 0 ==> committedG && idsCommittedG
 //@   ensures [C05:lock-released] $held == old($held)
+//@   frame-assumed preserves Entity.IsDeleted, Entity.ID, Dataset.store, Dataset.fullSyncStarted, Dataset.fullSyncSeen, Dataset.fullSyncID, Dataset.fullSyncLease, Dataset.ID, Dataset.InternalID, []*server.Entity
 //@   at call NewTransaction#1
 //@     ghost txnG := $result
 //@   at call StoreEntitiesWithTransaction#1 before
@@ -732,3 +733,62 @@ package server
 //@     | && len(cast(target.References[k], "[]interface{}")) == (isList(old(target.References[k])) ? len(cast(old(target.References[k]), "[]interface{}")) : 1) + (isList(source.References[k]) ? len(cast(source.References[k], "[]interface{}")) : 1)
 //@     invariant forall k string, i int :: visited(k) && old(has(target.References, k)) && 0 <= i && i < (isList(source.References[k]) ? len(cast(source.References[k], "[]interface{}")) : 1)
 //@     | ==> cast(target.References[k], "[]interface{}")[(isList(old(target.References[k])) ? len(cast(old(target.References[k]), "[]interface{}")) : 1) + i] == (isList(source.References[k]) ? cast(source.References[k], "[]interface{}")[i] : source.References[k])
+
+// ---------------------------------------------------------------------------
+// C09 (and C08): the full-sync state machine of a dataset
+
+//@ assumed context.WithTimeout
+//@   pure
+//@ assumed context.Background
+//@   pure
+
+//@ unit (*Dataset).StartFullSync
+//@   prop C09 C08
+//@   requires ds != nil
+//@   requires-inv [existing-objects] foreign(ds.fullSyncSeen)
+//@   ensures [started] result == nil && ds.fullSyncStarted
+//@   ensures [seen-set-starts-empty] ds.fullSyncSeen != nil && (forall k uint64 :: !has(ds.fullSyncSeen, k))
+//@   ensures [superseded-sync-loses-its-lease-and-id] old(ds.fullSyncStarted) ==> ds.fullSyncLease == nil && ds.fullSyncID == ""
+//@   ensures [fresh-seen-set] ds.fullSyncSeen != old(ds.fullSyncSeen)
+//@   dyncall cancel pure
+
+//@ unit (*Dataset).RefreshFullSyncLease
+//@   prop C09
+//@   requires ds != nil && ds.store != nil
+//@   ensures [foreign-id-rejected-without-effect] ds.fullSyncStarted && fullSyncID != ds.fullSyncID ==> result != nil
+//@   ensures [state-unchanged-on-rejection] result != nil ==> ds.fullSyncStarted == old(ds.fullSyncStarted) && ds.fullSyncID == old(ds.fullSyncID) && ds.fullSyncSeen == old(ds.fullSyncSeen) && ds.fullSyncLease == old(ds.fullSyncLease)
+//@   ensures [id-without-running-sync-rejected] !old(ds.fullSyncStarted) && fullSyncID != "" ==> result != nil
+//@   ensures [matching-refresh-keeps-the-sync] old(ds.fullSyncStarted) && fullSyncID == old(ds.fullSyncID) ==> result == nil && ds.fullSyncStarted && ds.fullSyncID == old(ds.fullSyncID) && ds.fullSyncSeen == old(ds.fullSyncSeen) && ds.fullSyncLease != nil
+//@   dyncall cancel pure
+
+//@ assumed (*Dataset).MapEntities
+//@   preserves Dataset.fullSyncStarted, Dataset.fullSyncSeen, Dataset.fullSyncID, Dataset.fullSyncLease, Dataset.store, map[uint64]int
+// within one callback the context's error does not flip back to nil between two reads
+//@ spec ctxErr(c iface) iface
+//@ assumed (context.Context).Err
+//@   pure
+//@   ensures result == ctxErr(recv)
+
+// the per-entity decision of the completion pass: exactly the live entities the sync did not see are tombstoned
+//@ unit (*Dataset).CompleteFullSync$2
+//@   prop C09
+//@   ghost flushedG bool = false
+//@   requires e != nil && ds != nil && ds.store != nil && !has($held, addrOf(ds.WriteLock))
+//@   requires [callers-hold-no-lock-at-or-above-dataset-level] forall l int :: has($held, l) ==> lockLevel(l) < 2
+//@   requires forall i int :: 0 <= i && i < len(deleteBatch) ==> deleteBatch[i] != nil
+//@   requires ds.fullSyncStarted ==> ds.fullSyncSeen != nil
+//@   ensures [seen-entities-are-left-alone] result == nil && old(has(ds.fullSyncSeen, e.InternalID)) ==> e.IsDeleted == old(e.IsDeleted)
+//@   ensures [unseen-live-entities-are-tombstoned] result == nil && !old(e.IsDeleted) && !old(has(ds.fullSyncSeen, e.InternalID)) ==> e.IsDeleted
+//@   ensures [tombstone-is-queued-or-written] result == nil && !old(e.IsDeleted) && !old(has(ds.fullSyncSeen, e.InternalID)) && !flushedG ==> len(deleteBatch) == old(len(deleteBatch)) + 1 && deleteBatch[len(deleteBatch) - 1] == e
+//@   ensures [nothing-else-is-queued] result == nil && (old(e.IsDeleted) || old(has(ds.fullSyncSeen, e.InternalID))) && !flushedG ==> deleteBatch == old(deleteBatch)
+//@   at call StoreEntities#1
+//@     ghost flushedG := true
+
+//@ unit (*Dataset).CompleteFullSync
+//@   prop C09
+//@   requires [C09:only-a-running-sync-owned-by-the-caller-is-completed] ds.fullSyncStarted
+//@   requires ds != nil && ds.store != nil && !has($held, addrOf(ds.WriteLock))
+//@   requires [callers-hold-no-lock-at-or-above-dataset-level] forall l int :: has($held, l) ==> lockLevel(l) < 2
+//@   at call StoreEntities#1 before
+//@     assume (forall i int :: 0 <= i && i < len(deleteBatch) ==> deleteBatch[i] != nil) && (ds.fullSyncStarted ==> ds.fullSyncSeen != nil)
+//@   ensures [sync-state-reset-on-every-exit] !ds.fullSyncStarted && ds.fullSyncID == "" && ds.fullSyncLease == nil && ds.fullSyncSeen != nil && (forall k uint64 :: !has(ds.fullSyncSeen, k))
